@@ -35,7 +35,15 @@ Loops2 == {
   PL("bodymem", <<SIn("d", "signal-M", 5), SIn("g", "signal-G", 0), SFor("i", IRange(Num(0), Num(2), Num(0)),
        <<SMem("m", "signal-M"), SWrite("m", Ref("d"), "when", Bin(">", Ref("g"), I), Num(0)), Lamp("e", Bin("*", I, Num(2)), Num(0)), En("e", Bin(">", ReadE("m"), Num(0)))>>)>>, "hist")
  }
-LoopAll == Loops1 \cup Loops2
+\* the body READS an outer name and only afterwards declares a local of the same name (the read means the outer binding in
+\* every iteration), for int, Signal and Entity names
+Loops3 == {
+  PL("readshadow", <<InA, SInt("n", Num(5)), SFor("i", IRange(Num(0), Num(3), Num(0)), <<Lamp("e", Bin("+", Ref("n"), I), Num(0)), SInt("n", Num(20)), En("e", Bin(">", A, Ref("n")))>>)>>, "val"),
+  PL("readshadow", <<InA, SLet("Signal", "x", Bin("+", A, Num(1))), SFor("i", IRange(Num(0), Num(3), Num(0)),
+       <<SLet("Signal", "y", Bin("+", Ref("x"), I)), SLet("Signal", "x", Bin("*", Ref("y"), Num(2))), Lamp("e", Bin("*", I, Num(2)), Num(0)), En("e", Bin(">", Ref("x"), Num(13)))>>)>>, "val"),
+  PL("readshadow", <<InA, Lamp("l", Num(9), Num(9)), SFor("i", IRange(Num(0), Num(2), Num(0)), <<En("l", Bin(">", A, I)), Lamp("l", Bin("*", I, Num(2)), Num(0)), En("l", Bin("<", A, I))>>)>>, "val")
+ }
+LoopAll == Loops1 \cup Loops2 \cup Loops3
 
 FX == [ty |-> "Signal", n |-> "x"]  FN == [ty |-> "int", n |-> "n"]  FE == [ty |-> "Entity", n |-> "e"]
 F1 == SFunc("f", <<FX, FN>>, <<>>, Bin("+", Bin("*", Ref("x"), Ref("n")), Num(1)))
@@ -58,6 +66,12 @@ Funcs == {
   PF("entparam", <<InA, SFunc("cfg", <<FE, [ty |-> "Signal", n |-> "s"]>>, <<En("e", Bin(">", Ref("s"), Num(1)))>>, <<>>),
                    Lamp("l", Num(0), Num(0)), Lamp("k", Num(2), Num(0)), SExpr(CallE("cfg", <<Ref("l"), A>>)), SExpr(CallE("cfg", <<Ref("k"), Bin("-", A, Num(3))>>))>>, "val"),
   PF("inloop", <<InA, F1, SFor("i", IRange(Num(0), Num(3), Num(0)), <<SLet("Signal", "v", CallE("f", <<A, I>>)), Lamp("e", Bin("*", I, Num(2)), Num(0)), En("e", Bin(">", Ref("v"), Num(4)))>>)>>, "val"),
+  PF("entclash", <<InA, InB, SFunc("mk", <<[ty |-> "Signal", n |-> "s"]>>, <<Lamp("lamp", Num(4), Num(0)), En("lamp", Bin(">", Ref("s"), Num(10)))>>, <<>>),
+                   Lamp("lamp", Num(0), Num(0)), SExpr(CallE("mk", <<A>>)), En("lamp", Bin(">", B, Num(3)))>>, "val"),
+  PF("entclash", <<InA, InB, SFunc("mk", <<[ty |-> "Signal", n |-> "s"]>>, <<Lamp("lamp", Num(4), Num(0)), En("lamp", Bin(">", Ref("s"), Num(10)))>>, <<>>),
+                   SFunc("mk2", <<[ty |-> "Signal", n |-> "s"]>>, <<Lamp("lamp", Num(8), Num(0)), En("lamp", Bin("<", Ref("s"), Num(2)))>>, <<>>),
+                   Lamp("lamp", Num(0), Num(0)), En("lamp", Bin(">", B, Num(3))), SExpr(CallE("mk", <<A>>)), SExpr(CallE("mk2", <<B>>))>>, "val"),
+  PF("sigclash", <<InA, InB, SFunc("g", <<FX>>, <<SLet("Signal", "a", Bin("+", Ref("x"), Num(1)))>>, Bin("*", Ref("a"), Num(2))), SLet("Signal", "r", CallE("g", <<B>>)), SLet("Signal", "s", Bin("+", A, Ref("r")))>>, "val"),
   PF("mem", <<SIn("d", "signal-M", 5), SIn("g", "signal-G", 0), SIn("h", "signal-H", 0),
               SFunc("cell", <<[ty |-> "Signal", n |-> "v"], [ty |-> "Signal", n |-> "en"]>>, <<SMem("m", "signal-M"), SWrite("m", Ref("v"), "when", Bin(">", Ref("en"), Num(0)), Num(0))>>, ReadE("m")),
               SLet("Signal", "r", CallE("cell", <<Ref("d"), Ref("g")>>)), SLet("Signal", "s", CallE("cell", <<Ref("d"), Ref("h")>>))>>, "hist")
